@@ -65,6 +65,7 @@ def walk(w, rnd, profile, steps, opts):
         p = w.p[a]; st = type(p.state).__name__; tr = w.t[a].phase
         r = rnd.random()
         choices = []
+        wt = opts.get("wt", {})
         if tr == "lost":
             if gens < opts.get("maxgen", 3) and rnd.random() < 0.7:
                 do(w.build(a)); gens += 1
@@ -80,11 +81,12 @@ def walk(w, rnd, profile, steps, opts):
             choices += [("connect", 6)]
         if st == "ConnectingState" and tr in ("open", "closing"):
             choices += [("connack", 6), ("connack_bad", 1)]
-        choices += [("publish", 5 if st != "IdleState" else 1), ("subscribe", 2 if st == "ConnectedState" else 0.3),
-                    ("unsubscribe", 1.5 if st == "ConnectedState" else 0.3), ("set", 1.2), ("fire", 2.5), ("idle", 0.5),
-                    ("lost", 0.6), ("disconnect", 0.25), ("connect", 0.2), ("pokeid", 0.5 if opts.get("wrap") else 0)]
+        choices += [("publish", wt.get("publish", 5) if st != "IdleState" else 1), ("subscribe", wt.get("subscribe", 2) if st == "ConnectedState" else 0.3),
+                    ("unsubscribe", wt.get("unsubscribe", 1.5) if st == "ConnectedState" else 0.3), ("set", wt.get("set", 1.2)), ("fire", wt.get("fire", 2.5)),
+                    ("idle", wt.get("idle", 0.5)), ("lost", wt.get("lost", 0.6)), ("disconnect", wt.get("disconnect", 0.25)), ("connect", 0.2),
+                    ("pokeid", 0.5 if opts.get("wrap") else 0), ("garbage", wt.get("garbage", 0))]
         if st == "ConnectedState" and tr in ("open", "closing"):
-            choices += [("ack", 7), ("inbound", 3 if profile != "pub" else 0.3), ("pingresp", 0.7), ("stray", 0.7)]
+            choices += [("ack", wt.get("ack", 7)), ("inbound", 3 if profile != "pub" else 0.3), ("pingresp", 2.5 if opts.get("wt", {}).get("idle", 0) > 1 else 0.7), ("stray", 0.7)]
         tot = sum(c[1] for c in choices); x = rnd.random() * tot
         for name, wt in choices:
             x -= wt
@@ -142,7 +144,7 @@ def walk(w, rnd, profile, steps, opts):
             else:
                 do(w.set(a, rnd.choice(["onPublish", "onDisconnection", "onMqttConnectionMade"]), rnd.randint(0, 1)))
         elif name == "fire":
-            if w.due() and w.due()[0].at < HORIZON and fires[0] < 10:
+            if w.due() and w.due()[0].at < HORIZON and fires[0] < opts.get("maxfires", 10):
                 fires[0] += 1; do(w.fire(rnd.choice(w.due())))
         elif name == "idle":
             ps = W.clock.pending()
@@ -155,6 +157,9 @@ def walk(w, rnd, profile, steps, opts):
             do(w.disconnect(a))
         elif name == "pokeid":
             do(w.pokeid(rnd.randint(65528, 65535)))
+        elif name == "garbage":
+            if tr in ("open", "closing"):
+                do(w.recv(a, bytes([rnd.choice([0x00, 0xF0, 0x10, 0x82, 0xE0, 0x30, 0x40, 0x20, 0x90]), rnd.choice([0, 1, 2, 3]), 0, 0, 0][: rnd.randint(2, 5)])))
         elif name == "ack":
             kinds = []
             if br.seen["PUBLISH1"]: kinds.append("PUBACK")
@@ -209,9 +214,17 @@ def main():
     for p in ("pub", "sub", "both"):
         files[p] = open(os.path.join(outdir, p + ".ndjson"), "w"); idx[p] = []; lines[p] = 0
     for tid in range(1, n + 1):
-        prof = rnd.choice(["pub", "sub", "both", "both"])
+        prof = rnd.choice({"subs": ["sub", "both"], "retry": ["pub", "both", "both"]}.get(fam, ["pub", "sub", "both", "both"]))
         w = W.World(prof, len(idx[prof]) + 1, files[prof])
         opts = {"maxgen": 3, "clean": rnd.choice([0.0, 0.5, 1.0]), "wrap": fam == "wrap" or (fam == "mixed" and rnd.random() < 0.25)}
+        if fam == "session":      # many losses of every kind, several generations, both session modes
+            opts.update(maxgen=5, wt={"lost": 2.2, "disconnect": 0.8, "garbage": 0.5, "publish": 6, "fire": 1.5}, ka=[0, 0, 2])
+        elif fam == "retry":      # long runs of expiries under varied timeouts / bandwidths
+            opts.update(maxgen=2, maxfires=24, drain=10, wt={"fire": 9, "set": 2.5, "lost": 0.2, "disconnect": 0.05, "publish": 4}, ka=[0])
+        elif fam == "keepalive":
+            opts.update(maxgen=3, maxfires=30, drain=4, wt={"fire": 6, "idle": 4, "lost": 0.4, "publish": 1.5, "subscribe": 0.5, "unsubscribe": 0.3}, ka=[1, 2, 5, 60, 0])
+        elif fam == "subs":
+            opts.update(maxgen=4, wt={"subscribe": 6, "unsubscribe": 5, "publish": 1, "lost": 1.2, "set": 2}, ka=[0])
         try:
             walk(w, rnd, prof, rnd.randint(8, 45), opts)
         except Exception as e:
